@@ -235,6 +235,19 @@ Qed.
    util.Sleep(wait) is action (1, [ns]) and the next controller is checked; nil -> next controller.
    On the result DoCheck returns for a model outcome this is the observation obs_of of
    Model/Throttle.v: Block, or Pass w with the sleep requested exactly when w > 0. ---- *)
+Definition slot_step_spec (nanos : Z) (r_nil : bool) (status : Z) (tc_nil : bool) : leaf_flow Z unit * list leaf_act :=
+  if tc_nil || r_nil then (LContinue tt, [])
+  else if status =? 1 then (LReturn 1, [])                                     (* ResultStatusBlocked *)
+  else if (status =? 2) && (0 <? nanos) then (LContinue tt, [(1, [LZ nanos])])  (* ResultStatusShouldWait *)
+  else (LContinue tt, []).
+
+Theorem flow_Slot_Check_step_all nanos r_nil status tc_nil :
+  flow_Slot_Check_step nanos r_nil status tc_nil = slot_step_spec nanos r_nil status tc_nil.
+Proof.
+  unfold flow_Slot_Check_step, slot_step_spec. cbv zeta.
+  destruct tc_nil, r_nil; cbn [orb]; try reflexivity. split_cmp.
+Qed.
+
 Definition slot_on (r : Z * Z) : leaf_flow Z unit * list leaf_act :=
   flow_Slot_Check_step (snd r) (fst r =? 0) (fst r) false.
 
@@ -261,4 +274,5 @@ Print Assumptions throttling_DoCheck_seq.
 Print Assumptions throttling_DoCheck_conc_start.
 Print Assumptions throttling_DoCheck_conc_retry.
 Print Assumptions throttling_New_ok.
+Print Assumptions flow_Slot_Check_step_all.
 Print Assumptions flow_Slot_Check_step_ok.
